@@ -2,6 +2,9 @@ import AvroModel.Spec.Value
 /-
 The canonical binary encoding of a value under a schema node (one block per non-empty
 array/map, non-negative counts).  `none` when the value does not conform to the node.
+Every length, count, union index, enum index and big-decimal scale is written as an Avro `long`,
+so it must be below `2 ^ 63`; a value violating this has no encoding (`none`).  Without these
+guards `decode_encode` is false (e.g. `Value.bytes (List.replicate (2 ^ 63) 0)`).
 -/
 namespace Avro.Spec
 open Avro Avro.Impl
@@ -27,8 +30,14 @@ def encode (S : Schema) (n : Node) : Value → Option Bytes
     | _ => none
   | .float bits => match n with | .float => some (leBytes 4 bits.toNat) | _ => none
   | .double bits => match n with | .double => some (leBytes 8 bits.toNat) | _ => none
-  | .bytes b => match n with | .bytes => some (lenPrefixed b) | _ => none
-  | .string s => match n with | .string | .uuid => some (lenPrefixed (utf8 s)) | _ => none
+  | .bytes b =>
+    match n with
+    | .bytes => if b.length < 2 ^ 63 then some (lenPrefixed b) else none
+    | _ => none
+  | .string s =>
+    match n with
+    | .string | .uuid => if (utf8 s).length < 2 ^ 63 then some (lenPrefixed (utf8 s)) else none
+    | _ => none
   | .array items =>
     match n with
     | .array k =>
@@ -38,7 +47,9 @@ def encode (S : Schema) (n : Node) : Value → Option Bytes
         match encodeItems S item items with
         | none => none
         | some body =>
-          some ((if items.isEmpty then [] else encodeLong items.length ++ body) ++ [0])
+          if items.length < 2 ^ 63 then
+            some ((if items.isEmpty then [] else encodeLong items.length ++ body) ++ [0])
+          else none
     | _ => none
   | .map entries =>
     match n with
@@ -49,7 +60,9 @@ def encode (S : Schema) (n : Node) : Value → Option Bytes
         match encodeEntries S item entries with
         | none => none
         | some body =>
-          some ((if entries.isEmpty then [] else encodeLong entries.length ++ body) ++ [0])
+          if entries.length < 2 ^ 63 then
+            some ((if entries.isEmpty then [] else encodeLong entries.length ++ body) ++ [0])
+          else none
     | _ => none
   | .union idx v =>
     match n with
@@ -62,7 +75,7 @@ def encode (S : Schema) (n : Node) : Value → Option Bytes
         | some branch =>
           match encode S branch v with
           | none => none
-          | some body => some (encodeLong idx ++ body)
+          | some body => if idx < 2 ^ 63 then some (encodeLong idx ++ body) else none
     | _ => none
   | .record vals =>
     match n with
@@ -70,7 +83,7 @@ def encode (S : Schema) (n : Node) : Value → Option Bytes
     | _ => none
   | .enum idx =>
     match n with
-    | .enum _ syms => if idx < syms.length then some (encodeLong idx) else none
+    | .enum _ syms => if idx < syms.length ∧ idx < 2 ^ 63 then some (encodeLong idx) else none
     | _ => none
   | .fixed b =>
     match n with
@@ -84,8 +97,10 @@ def encode (S : Schema) (n : Node) : Value → Option Bytes
   | .bigDecimal u scale =>
     match n with
     | .bigDecimal =>
-      (twosComplementBE (minimalLen u) u).map fun m =>
-        lenPrefixed (lenPrefixed m ++ encodeLong scale)
+      if scale < 2 ^ 63 then
+        (twosComplementBE (minimalLen u) u).map fun m =>
+          lenPrefixed (lenPrefixed m ++ encodeLong scale)
+      else none
     | _ => none
   | .duration mo d ms =>
     match n with
@@ -110,7 +125,8 @@ def encodeEntries (S : Schema) (item : Node) : List (String × Value) → Option
     | none => none
     | some a => match encodeEntries S item rest with
       | none => none
-      | some b => some (lenPrefixed (utf8 k) ++ a ++ b)
+      | some b =>
+        if (utf8 k).length < 2 ^ 63 then some (lenPrefixed (utf8 k) ++ a ++ b) else none
 
 def encodeFields (S : Schema) : List Nat → List Value → Option Bytes
   | [], [] => some []
